@@ -117,8 +117,8 @@ var (
 	poolGOPATH  = []string{"/home/g", "/home/g2", "/home", "/home/g:/home/g2"}
 	poolTags    = [][]string{nil, {"a"}, {"a", "b"}, {"b", "a"}, {"ab"}, {"a", "b", "c"}, {"a b"}, {"a\", \"b"}}
 	poolVersion = []string{"1.20.0", "1.20.1", "1.20", "1.20.0+go1.20"}
-	poolPaths   = []string{"p", "p/q", "p_test", "pq", "p/q_test", "q", "example.com/x/y", "p/q/r"}
-	poolTested  = []string{"", "", "p", "p/q", "q"}
+	poolPaths   = []string{"p", "p/q", "p_test", "pq", "p/q_test", "q", "example.com/x/y", "p/q/r", "p_test_test", "q_test"}
+	poolTested  = []string{"", "", "p", "p/q", "q", "p_test", "p/q_test"} // a tested package may itself be called x_test
 )
 
 func genConfig(rt *rapid.T, label string) config {
